@@ -145,6 +145,58 @@ def judge(ctx, name, lock, wit, K, certs_rf, fields, allowed, t, now,
         ctx.mark_nontrivial(dg(name, bytes(lock), bytes(wit), t, now))
 
 
+def judge_script_witnesses(ctx, rng, lock, honest, K, certs, fields, allowed,
+                           t, now, n):
+    if Cfg.mode == 'per-run':
+        # that mode runs witness and lock as ONE script (run_script takes the
+        # flags); it is only meaningful for witnesses that just push data
+        return
+    O = isa.op
+    lock = bytes(lock)
+    h = rng.choice((0, 0, 0, 1, 2))
+    body = rng.choice((O('POP0') + O('TRUE'), O('TRUE'), b'',
+                       O('POP0') + O('POP0') + O('TRUE'),
+                       O('POP0') + O('TRUE') + O('RETURN'),
+                       O('DEPTH') + O('POP0') + O('POP0') + O('TRUE')))
+    keys = rng.choice((b'r', b's', b'c', b'e', b'b', b'd'))
+    preset = O('TRUE') + O('WRITE_CACHE') + bytes([1]) + keys + b'\x01'
+    honest_ok = model_chain(K, certs, sig_of_witness(honest), fields, allowed,
+                            t, now, True)
+    outsider = rbytes(rng, 32)
+    cases = [
+        ('defines-handle', isa.DEF(h, body), False),
+        ('defines-handle+true', isa.DEF(h, body) + O('TRUE'), False),
+        ('defines-handle+junk', isa.DEF(h, body) + isa.push(rbytes(rng, 64))
+         + isa.push(rbytes(rng, 105)), False),
+        ('presets-register', preset, False),
+        ('returns-early', O('TRUE') + O('RETURN'), False),
+        ('true-only', O('TRUE'), False),
+        ('empty', b'', False),
+        # around the builder's witness: verdict as for the witness alone
+        ('defines-handle+honest', isa.DEF(h, body) + honest, honest_ok),
+        ('presets-register+honest', preset + honest, honest_ok),
+    ]
+    for name, w, want in cases:
+        ctx.evaluated()
+        env.Clock.now = now
+        got = auth([w, lock], {**fields, 'timestamp': t})
+        env.Clock.now = env.NOW0
+        ctx.tab('script_witness', name)
+        if (got is True) != want:
+            key = ('delegation-accepts:' if got is True else
+                   'delegation-rejects:') + 'chain:script-witness:' + name
+            ctx.violation(key, f'chain lock, witness script {name} (handle '
+                          f'{h}): verdict differs from the statement '
+                          'predicate', {'name': 'script-witness:' + name,
+                                        'lock': lock, 'witness': w,
+                                        'fields': fields, 't': t, 'now': now,
+                                        'want': want, 'slack': Cfg.slack,
+                                        'mode': Cfg.mode}, want,
+                          repr(got)[:80])
+        else:
+            ctx.mark_nontrivial(dg('script-witness', name, w, lock))
+
+
 def scenario(ctx, rng, j):
     functions, parsing, tools, _, _ = env.mods()
     t_ = tools
@@ -291,6 +343,13 @@ def scenario(ctx, rng, j):
                       certs, fields, allowed, t, now2, False, True)
         except BaseException:
             pass
+    # a witness is a SCRIPT: one that brings its own definitions / cache
+    # entries / early return instead of (or around) a certificate and a
+    # signature is no (certificate, signature) pair by K - and around a valid
+    # pair it changes nothing
+    if j % 2 == 0:
+        judge_script_witnesses(ctx, rng, chain_lock, bytes(wit), pks[0],
+                               certs, fields, allowed, t, now2, n)
     # covered field changed at check time
     f2 = dict(fields)
     f2['sigfield3'] = fields['sigfield3'] + b'!'
@@ -391,6 +450,20 @@ def replay(case, ctx):
         return
     Cfg.slack, Cfg.mode = case.get('slack', 60), case.get('mode', 'default')
     gf = {'ts_threshold': Cfg.slack} if Cfg.mode == 'global' else {}
+    if str(case.get('name', '')).startswith('script-witness:'):
+        with env.global_flags(gf):
+            ctx.evaluated()
+            env.Clock.now = case['now']
+            got = auth([case['witness'], case['lock']],
+                       {**case['fields'], 'timestamp': case['t']})
+            env.Clock.now = env.NOW0
+            if (got is True) != case['want']:
+                ctx.violation('delegation-' + ('accepts' if got is True else
+                                               'rejects')
+                              + ':chain:' + case['name'], 'replay', case,
+                              case['want'], repr(got)[:80])
+        Cfg.slack, Cfg.mode = 60, 'default'
+        return
     with env.global_flags(gf):
         judge(ctx, case['name'], case['lock'], case['witness'], case['K'],
               case['certs'], case['fields'], case['allowed'], case['t'],
